@@ -140,6 +140,13 @@ def _run_sites_rule(run, rule_id="F-VIEW"):
                 key = rk.slice
                 key_ok = src(key) == "obj._root" or (isinstance(key, ast.Name) and P.has(f.node, "__k = obj._root", {"__k": key.id}))
             ok = key_ok and src(kwarg(cs[0], "_ref_spec") or ast.Constant(value=None)) == "obj._ref_spec"
+            # ... and the rewrite happens for every view whose ROOT is mapped: the guarding membership test uses the same key
+            if ok:
+                guards_ = [anc for anc in m.parents.ancestors(cs[0]) if isinstance(anc, ast.If)]
+                mem = [g for g in guards_ if isinstance(g.test, ast.Compare) and len(g.test.ops) == 1 and isinstance(g.test.ops[0], ast.In) and dotted(g.test.comparators[0]) == rk.value.id]
+                same_key = any(src(g.test.left) == src(rk.slice) for g in mem)
+                run.ob(same_key, q.split(".<locals>.")[-1], file=rel, line=cs[0].lineno, detail="rewrite-keyed-by-root", expected=f"if {src(rk.slice)} in {rk.value.id}: (slices and elements of a mapped root are rewritten too)",
+                       found="ok" if same_key else "; ".join(src(g.test) for g in mem) or "no membership guard")
         run.ob(ok, q.split(".<locals>.")[-1], file=rel, line=(cs[0].lineno if cs else f.node.lineno), detail="rewrite-keeps-view",
                expected=f"_root={rootexpr}, _ref_spec=obj._ref_spec", found=src(cs[0])[:100] if cs else "missing")
     run.end()
